@@ -198,4 +198,86 @@ theorem Fr.resetPrefixedOptions (k : Key) (id : Nat) (a b : Str)
       repeat fr_core
     exact this.run s hown
 
+
+theorem sameObs_augment (k key : Key) (id : Nat) (s : Store) (v : Val) (h : key ≠ k) :
+    SameObs k id s { s with augments := ainsert key v s.augments } :=
+  ⟨rfl, rfl, rfl, rfl, rfl, by simp [alookup_ainsert, h]⟩
+
+theorem Fr.setOptionTail (k : Key) (id : Nat) (s0 : Store) (key : Key) (first : Bool) (i : Nat) (v : Val)
+    (hi : i ≠ id) (hkey : key ≠ k) (hnp : (Tables.nopfxTable.map (·.1)).contains k.name = false) :
+    Fr k id (setOptionTail s0 key first i v) := by
+  unfold MesonModel.Options.setOptionTail
+  repeat (first
+    | exact Fr.resetPrefixedOptions k id _ _ hnp
+    | (apply Fr.modify; intro s; exact sameObs_augment k key id s _ hkey)
+    | fr_core)
+
+/-- one activation of `set_option` for an option of another name leaves `k` alone -/
+theorem Fr.setOptionCore (k : Key) (id : Nat) (key : Key) (v : Val) (first : Bool)
+    (hname : key.name ≠ k.name) (hnp : (Tables.nopfxTable.map (·.1)).contains k.name = false) :
+    Fr k id (setOptionCore key v first) := by
+  have hkey : key ≠ k := fun e => hname (by rw [e])
+  constructor
+  intro s hown
+  unfold MesonModel.Options.setOptionCore
+  simp only [Bind.bind, M.bind, M.get]
+  cases sanitizeForSet s key v with
+  | error e => exact SameObs.refl k id s
+  | ok nv1 =>
+    simp only [M.ofExcept, M.pure]
+    cases hr : resolveForSet s key with
+    | error e => exact SameObs.refl k id s
+    | ok i =>
+      simp only
+      have hres : resolveId s key = .ok i := by
+        unfold resolveForSet at hr
+        split at hr
+        · cases hr; assumption
+        · cases hr
+        · cases hr
+      obtain ⟨key', hn', hl'⟩ := resolveId_name hres
+      have hi : i ≠ id := hown key' i hl' (by rw [hn']; exact hname)
+      exact (Fr.setOptionTail k id s key first i nv1 hi hkey hnp).run s hown
+
+/-- `set_option` for an option of another name (with the `buildtype` expansion: `k` is not one of the
+dependents) leaves `k` alone -/
+theorem Fr.setOption (k : Key) (id : Nat) (key : Key) (v : Val) (first : Bool)
+    (hname : key.name ≠ k.name) (hnp : (Tables.nopfxTable.map (·.1)).contains k.name = false)
+    (hd : key.name = sBuildtype → k.name ≠ sDebug ∧ k.name ≠ sOptimization) :
+    Fr k id (setOption key v first) := by
+  unfold MesonModel.Options.setOption
+  apply Fr.bind (Fr.setOptionCore k id key v first hname hnp)
+  intro r
+  obtain ⟨changed, nv⟩ := r
+  dsimp only
+  split
+  · rename_i hc
+    have hb : key.name = sBuildtype := by
+      simp only [Bool.and_eq_true, beq_iff_eq] at hc; exact hc.1.2
+    obtain ⟨h1, h2⟩ := hd hb
+    have e1 : (key.withName sDebug).name ≠ k.name := fun e => h1 (by simpa [Key.withName] using e.symm)
+    have e2 : (key.withName sOptimization).name ≠ k.name := fun e => h2 (by simpa [Key.withName] using e.symm)
+    repeat (first | exact Fr.setOptionCore k id _ _ _ e1 hnp | exact Fr.setOptionCore k id _ _ _ e2 hnp | fr_core)
+  · exact Fr.pure' _
+
+theorem sameObs_pending (k : Key) (id : Nat) (s : Store) (p : Dict) : SameObs k id s { s with pending := p } :=
+  ⟨rfl, rfl, rfl, rfl, rfl, rfl⟩
+theorem sameObs_pendingSub (k : Key) (id : Nat) (s : Store) (p : Dict) : SameObs k id s { s with pendingSub := p } :=
+  ⟨rfl, rfl, rfl, rfl, rfl, rfl⟩
+
+/-- **frame**: `set_user_option` for an option of another name leaves `k` alone, whatever it does (set an
+object, set an override, park the value as pending, raise) -/
+theorem Fr.setUserOption (k : Key) (id : Nat) (key : Key) (v : Val) (first : Bool)
+    (hname : key.name ≠ k.name) (hnp : (Tables.nopfxTable.map (·.1)).contains k.name = false)
+    (hd : key.name = sBuildtype → k.name ≠ sDebug ∧ k.name ≠ sOptimization) :
+    Fr k id (setUserOption key v first) := by
+  unfold MesonModel.Options.setUserOption
+  have hroot : Fr k id (MesonModel.Options.setOption key.asRoot v first) :=
+    Fr.setOption k id key.asRoot v first (by simpa [Key.asRoot] using hname) hnp (by simpa [Key.asRoot] using hd)
+  repeat (first
+    | exact Fr.setOption k id key v first hname hnp hd
+    | exact hroot
+    | (apply Fr.modify; intro s; exact sameObs_pending k id s _)
+    | fr_core)
+
 end MesonModel.Options
